@@ -147,10 +147,10 @@ pub(crate) fn doctype_error_and_quirks(
     let system = opt_to_ascii_lower(system);
 
     let quirk = match (opt_string_as_slice(&public), opt_string_as_slice(&system)) {
+        _ if iframe_srcdoc => NoQuirks,
+
         _ if doctype.force_quirks => Quirks,
         _ if name != Some("html") => Quirks,
-
-        _ if iframe_srcdoc => NoQuirks,
 
         (Some(ref p), _) if QUIRKY_PUBLIC_MATCHES.contains(p) => Quirks,
         (_, Some(ref s)) if QUIRKY_SYSTEM_MATCHES.contains(s) => Quirks,
